@@ -237,12 +237,19 @@ impl State {
     /// under the account name it was started with; if the client changed its name (or, as a
     /// temporary user, registered) while the task was in flight, that write matches nothing and
     /// the result is lost — real behaviour of the pinned tree, keyed by cause (open finding).
-    pub fn final_liveness(&mut self, c: usize, acct: &str, pname: &str, j: &serde_json::Value, solves: &[(usize, String, String, u64)], tasks: &BTreeMap<u64, TaskMeta>, faults: bool) -> Option<Violation> {
+    pub fn final_liveness(&mut self, c: usize, acct: &str, pname: &str, j: &serde_json::Value, solves: &[(usize, String, String, u64)], tasks: &BTreeMap<u64, TaskMeta>, faults: bool, exact: bool) -> Option<Violation> {
         const RENAME_KEY: &str = "E-liveness/user.rs:update_user/task-in-flight-across-rename";
         if faults {
             return None;
         }
         let prob = self.cur.get(&(c, pname.to_string()))?.clone();
+        // A client whose model is no longer exact (a request of its was dropped by a disconnect
+        // or lost in a restart) may be shown another document than the one its last acknowledged
+        // add created - e.g. a delete and an add that were executed but never acknowledged. The
+        // tasks the model knows belong to the old document; nothing is demanded of the new one.
+        if !exact && self.last_read_doc.is_some() && self.last_read_doc != prob.doc_id {
+            return None;
+        }
         if prob.doc_id.map(|d| self.stale_docs.contains(&d)).unwrap_or(false) {
             return None;
         }
